@@ -22,6 +22,9 @@ func main() {
 	case "serve":
 		setupLogger()
 		runServe(os.Args[2:])
+	case "conc":
+		setupLogger()
+		runConc(os.Args[2:])
 	default:
 		fmt.Fprintln(os.Stderr, "unknown engine", os.Args[1])
 		os.Exit(2)
